@@ -42,3 +42,36 @@ def decode(b):
     from pyvc.builtins_model import utf16_units_fn
 
     return SSeq(utf16_units_fn()(b.t), "char", "str")
+
+
+def names_fold_fn():
+    """E(names) = concatenation over the list of  encode(name) ++ 00 00   (uninterpreted fold; snoc instances are
+    supplied where a list grows by one element)"""
+    return V.uf("utf16_names", V.seq_sort("str"), V.seq_sort("byte"))
+
+
+def names_bytes(names):
+    if not is_sym(names):
+        out = b""
+        for n in names:
+            out += n.encode("utf-16LE") + b"\x00\x00"
+        return out
+    return SSeq(names_fold_fn()(names.t), "byte", "bytes")
+
+
+def names_snoc_axiom(names, x):
+    """E(names ++ [x]) == E(names) ++ encode(x) ++ 00 00"""
+    import z3
+
+    names = V.to_seq(names, elem="str") if not isinstance(names, SSeq) else names
+    x = V.to_seq(x)
+    f = names_fold_fn()
+    zz = V.to_seq(b"\x00\x00").t
+    return SBool(f(z3.Concat(names.t, z3.Unit(x.t))) == z3.Concat(f(names.t), _fn()(x.t), zz))
+
+
+def names_empty_axiom():
+    import z3
+
+    f = names_fold_fn()
+    return SBool(f(z3.Empty(V.seq_sort("str"))) == z3.Empty(V.seq_sort("byte")))
